@@ -255,6 +255,8 @@ class Scheduler:
         self.log = [] if keep_log else None
         self.in_flight = set()
         self.hot_files = frozenset()
+        self.instr = False        # additionally yield at every bytecode instruction of instr_files
+        self.instr_files = frozenset()
         self.hot = {}             # tid -> {site: [own step indices]} for sites in hot_files
         self.watch = {}           # site -> probe name (reach probes)
         self.watch_hits = {}      # (probe name, tid) -> count
@@ -365,6 +367,27 @@ class Scheduler:
                 for t, lk in sorted(self.blocked_on.items())}
 
     # -- simulated locks -------------------------------------------------------------------------
+    def sync_point(self, tid, site):
+        """Acquiring a lock is a scheduling point of its own (two acquisitions on one source line must be
+        separable); it is counted and logged like a line step and is always a 'hot' site."""
+        self.total_steps += 1
+        self.steps[tid] += 1
+        self._seg_n += 1
+        self.h.update(f"{tid}:{site};".encode())
+        if self.log is not None:
+            self.log.append((tid, site))
+        v = self.hot.setdefault(tid, {}).setdefault(site, [])
+        if len(v) < 64:
+            v.append(self.steps[tid])
+        if len(self.in_flight) > 1:
+            self.overlap_steps += 1
+        if self.total_steps > self.max_steps:
+            self._fail("step-budget", {"steps": self.total_steps})
+            self._park_forever(tid)
+        nxt = self.policy.at_step(self, tid)
+        if nxt != tid:
+            self._switch(tid, nxt, site, kind="preempt")
+
     def block_on(self, tid, lock):
         self.lock_blocks += 1
         self.status[tid] = "blocked"
@@ -382,6 +405,61 @@ class Scheduler:
                 del self.blocked_on[t]
                 self.status[t] = "ready"
 
+    # -- opcode granularity (thorough tier): check-then-act inside one source line can be split -----
+    def _on_instruction(self, code, offset):
+        tid = self.ident2tid.get(_thread.get_ident())
+        if tid is None:
+            return None
+        self.total_steps += 1
+        self.steps[tid] += 1
+        self._seg_n += 1
+        sf = short_file(code.co_filename)
+        site = f"{sf}@{code.co_name}+{offset}"
+        self.h.update(f"{tid}:{site};".encode())
+        if self.log is not None:
+            self.log.append((tid, site))
+        v = self.hot.setdefault(tid, {}).setdefault(site, [])
+        if len(v) < 16:
+            v.append(self.steps[tid])
+        if len(self.in_flight) > 1:
+            self.overlap_steps += 1
+        if self.total_steps > self.max_steps:
+            self._fail("step-budget", {"steps": self.total_steps})
+            self._park_forever(tid)
+        nxt = self.policy.at_step(self, tid)
+        if nxt != tid:
+            self._switch(tid, nxt, site, kind="preempt")
+        return None
+
+    def _instr_codes(self):
+        """Code objects of the hot files (functions, methods, nested functions)."""
+        out, seen = [], set()
+
+        def walk(code):
+            if id(code) in seen:
+                return
+            seen.add(id(code))
+            out.append(code)
+            for c in code.co_consts:
+                if hasattr(c, "co_code"):
+                    walk(c)
+
+        for mod in list(sys.modules.values()):
+            f = getattr(mod, "__file__", None)
+            if not f or short_file(f) not in self.instr_files or not is_adaptix_file(f):
+                continue
+            for v in list(vars(mod).values()):
+                objs = [v]
+                if isinstance(v, type):
+                    objs = [x for x in vars(v).values()]
+                for o in objs:
+                    o = getattr(o, "__func__", o)
+                    o = getattr(o, "__wrapped__", o)
+                    c = getattr(o, "__code__", None)
+                    if c is not None and short_file(c.co_filename) in self.instr_files:
+                        walk(c)
+        return out
+
     # -- run -------------------------------------------------------------------------------------
     def run(self):
         if not self.gates:
@@ -390,6 +468,13 @@ class Scheduler:
         try:
             mon.register_callback(TOOL, mon.events.LINE, self._on_line)
             mon.set_events(TOOL, mon.events.LINE)
+            if self.instr:
+                mon.register_callback(TOOL, mon.events.INSTRUCTION, self._on_instruction)
+                for c in self._instr_codes():
+                    try:
+                        mon.set_local_events(TOOL, c, mon.events.INSTRUCTION)
+                    except Exception:  # noqa: BLE001, S110
+                        pass
             mon.restart_events()
             for t in self.bodies:
                 t.start()
@@ -436,6 +521,8 @@ class SimLock:
         if self.reentrant and self.owner == me:
             self.count += 1
             return True
+        if s is not None and me != "main":
+            s.sync_point(me, f"<acquire {self.name}>")
         while self.owner is not None:
             if me == "main" or s is None:
                 raise HarnessError(f"SimLock {self.name} taken by {self.owner} while main thread needs it")
